@@ -715,8 +715,9 @@ func TestBoundaryGrid(t *testing.T) {
 						if total < d1 {
 							continue
 						}
-						// a warm-up transaction fixes the tick grid; the subject's request comes `phase` later
-						evs := []event{{K: "req", Txn: 0}, {K: "adv", Ms: phase}, {K: "req", Txn: 1}, {K: "adv", Ms: d1}, {K: "reload", How: kind}}
+						// a warm-up transaction and a warm-up reload at +0 fix the tick grids of both vacuum loops;
+						// the subject's request comes `phase` later
+						evs := []event{{K: "req", Txn: 0}, {K: "reload", How: "data"}, {K: "adv", Ms: phase}, {K: "req", Txn: 1}, {K: "adv", Ms: d1}, {K: "reload", How: kind}}
 						rest := total - d1
 						if second {
 							step := rest / 2
